@@ -9,6 +9,7 @@ import (
 	"os/exec"
 	"strconv"
 	"strings"
+	"sync"
 	"testing"
 	"time"
 )
@@ -68,7 +69,10 @@ func runInChildren(t *testing.T, layer string, n int, perChildTimeout time.Durat
 			}
 		}
 		cmd.Env = append(os.Environ(), "VERIF_CHILD="+layer, "VERIF_CHILD_FROM="+strconv.Itoa(from), "VERIF_CHILD_RESTARTS="+strconv.Itoa(restarts))
-		var out bytes.Buffer
+		// the output is streamed so that the parent knows when the child last made progress: a cell that stays silent for
+		// cellSilence is a hang of that cell (a finding); a child that keeps making progress but exceeds perChildTimeout is an
+		// overloaded machine (inconclusive, never a violation)
+		var out syncBuffer
 		cmd.Stdout = &out
 		cmd.Stderr = &out
 		if err := cmd.Start(); err != nil {
@@ -77,13 +81,29 @@ func runInChildren(t *testing.T, layer string, n int, perChildTimeout time.Durat
 		done := make(chan error, 1)
 		go func() { done <- cmd.Wait() }()
 		timedOut := false
-		select {
-		case <-done:
-		case <-time.After(perChildTimeout):
-			_ = cmd.Process.Kill()
-			<-done
-			timedOut = true
+		started := time.Now()
+		tick := time.NewTicker(time.Second)
+	wait:
+		for {
+			select {
+			case <-done:
+				break wait
+			case <-tick.C:
+				if time.Since(out.lastWrite()) > cellSilence {
+					_ = cmd.Process.Kill()
+					<-done
+					timedOut = true
+					break wait
+				}
+				if time.Since(started) > perChildTimeout {
+					_ = cmd.Process.Kill()
+					<-done
+					tick.Stop()
+					t.Fatalf("INCONCLUSIVE: the child process of layer %s was still making progress after %v (overloaded machine?); no verdict", layer, perChildTimeout)
+				}
+			}
 		}
+		tick.Stop()
 		running, finished, lastEnded := -1, false, from-1
 		for _, line := range strings.Split(out.String(), "\n") {
 			switch {
@@ -122,6 +142,43 @@ func runInChildren(t *testing.T, layer string, n int, perChildTimeout time.Durat
 		from = running + 1
 	}
 	return results
+}
+
+// cellSilence is how long one cell of a child process may run without finishing before it is reported as hanging.
+var cellSilence = func() time.Duration {
+	if s, err := strconv.Atoi(os.Getenv("VERIF_CELL_SILENCE")); err == nil && s > 0 {
+		return time.Duration(s) * time.Second // harness self-tests only
+	}
+	return 4 * time.Minute
+}()
+
+// syncBuffer is a bytes.Buffer that remembers when it was last written to.
+type syncBuffer struct {
+	mu   sync.Mutex
+	b    bytes.Buffer
+	last time.Time
+}
+
+func (s *syncBuffer) Write(p []byte) (int, error) {
+	s.mu.Lock()
+	defer s.mu.Unlock()
+	s.last = time.Now()
+	return s.b.Write(p)
+}
+
+func (s *syncBuffer) String() string {
+	s.mu.Lock()
+	defer s.mu.Unlock()
+	return s.b.String()
+}
+
+func (s *syncBuffer) lastWrite() time.Time {
+	s.mu.Lock()
+	defer s.mu.Unlock()
+	if s.last.IsZero() {
+		s.last = time.Now()
+	}
+	return s.last
 }
 
 func tail(s string, n int) string {
